@@ -74,6 +74,8 @@ def concretize(prop, ob):
     if name.startswith("main/store_object/arg:object_size"):
         out.append(("client_cli", {"argv": ["-storeobject", "-pid=cli-pid", "-path={data}",
                                             "-obj_size={size}"], "expect_bound": "cli-pid"}))
+    if "R1-overwritten-document-is-replaced-never-removed" in name:
+        out.append(("meta_overwrite_reader", {}))
     if "temporary-files-only-in-tmp-areas" in name:
         out.append(("race_slow_store_meta", {}))
     if "directories-are-never-removed" in name:
